@@ -160,8 +160,13 @@ def rand_comp(rng, cnt, depth, allow_tf=True):
     props = []
     for _ in range(rng.choice([0, 0, 1, 2, 3, 4])):
         props.append([rng.choice(PROP_NAMES), rand_prop(rng, cnt, min(depth, 2), nested=not allow_tf)])
+    if rng.random() < 0.15:
+        # a `style` prop given as a dict: every entry written once, None as null, like any other dict-valued prop
+        simple = lambda: rng.choice([{"p": "none"}, {"p": "num", "v": 0}, {"p": "str", "v": "1px"}, {"p": "num", "v": 2.5}, {"p": "none"},    # noqa: E731
+                                     {"p": "dict", "v": [["c", {"p": "none"}]]}, {"p": "bool", "v": False}])
+        props.append(["style", {"p": "dict", "v": [[k_, simple()] for k_ in rng.sample(["color", "margin", "top", "fontSize", "--x", "a"], rng.randint(1, 4))]}])
     kids = [rand_child(rng, cnt, depth, allow_tf) for _ in range(rng.choice([0, 0, 1, 2, 3]))] if depth > 0 else []
-    return {"k": "jsx", "name": rng.choice(COMPONENTS), "props": props, "c": kids, "how": rng.choice(["ctor", "ctor", "append", "extend", "mixed"])}
+    return {"k": "jsx", "name": rng.choice(COMPONENTS), "props": props, "c": kids, "how": rng.choice(["ctor", "ctor", "append", "extend", "mixed", "extend_each"])}
 
 
 def rand_tag(rng, cnt, depth, allow_tf=True):
@@ -241,6 +246,12 @@ def build(r):
         if how == "extend":
             x = mk(**props)
             x.extend(kids)
+            return x
+        if how == "extend_each":
+            # one extend() per child; a plain string handed to extend() is ONE child (the text), as for Tag / TagList
+            x = mk(**props)
+            for c in kids:
+                x.extend(c if type(c) is str else [c])
             return x
         x = mk(kids[0], **props)
         x.append(*kids[1:]) if kids[1:] else None
